@@ -312,6 +312,15 @@ def build(case):
         lls = scen.strip_lanelets(rng, rng.randint(1, 2), rng.randint(1, 2), first_id=1,
                                   origin=(scen.rnd(rng, -100, 100), scen.rnd(rng, -100, 100)))
         la = rng.choice(lls)
+        if rng.random() < 0.2:
+            # a hand-written lanelet with whole-number coordinates given as integer arrays (Lanelet never casts them)
+            from commonroad.scenario.lanelet import Lanelet as _L
+            x0, y0 = rng.randint(-50, 50), rng.randint(-50, 50)
+            n = rng.randint(2, 4)
+            right = np.array([[x0 + 10 * j, y0] for j in range(n)])
+            left = np.array([[x0 + 10 * j, y0 + 4] for j in range(n)])
+            center = np.array([[x0 + 10 * j, y0 + 2] for j in range(n)])
+            la = _L(left, center, right, la.lanelet_id)
         if rng.random() < 0.6:
             from commonroad.scenario.lanelet import LineMarking, StopLine
             la.stop_line = StopLine(la.left_vertices[-1].copy(), la.right_vertices[-1].copy(), LineMarking.SOLID)
